@@ -7,6 +7,7 @@
 //        created) and <quiet> (1 = no flush and no listing until the `end` line: every other line prints "-") and
 //        <TZ hex> (a full POSIX TZ string with daylight-saving rules, e.g. CET-1CEST,M3.5.0,M10.5.0/3; overrides <tz>)
 //   w <payload hex> [<type>] | adv <ms> | restart | put <name hex> <bytes hex>
+//        a message text is the hex of its UTF-8 bytes (U+0000 allowed) or u<hex of UTF-16BE code units> (unpaired surrogates)
 //        <type> = the QtMsgType of the message, 0 debug 1 warning 2 critical 3 fatal 4 info (default); the sink is called
 //        directly, so a fatal-typed record does not abort the process
 //   w <raw hex> <type> <fmt mode> <fmt hex> [<age ms>]   the long form: <raw> is LogMessage::message(); <fmt mode> 0 = no formatted
@@ -89,6 +90,19 @@ static void restamp()
 }
 static std::string hex(const QByteArray &b) { return b.isEmpty() ? std::string("-") : b.toHex().toStdString(); }
 static QByteArray unhex(const std::string &h) { return h == "-" ? QByteArray() : QByteArray::fromHex(QByteArray::fromStdString(h)); }
+// the QString of a message-text token: hex of its UTF-8 bytes (embedded U+0000 included: the length is explicit, QString::fromUtf8(
+// QByteArray) would stop at the first NUL), or 'u' + hex of UTF-16BE code units (a text with unpaired surrogates has no UTF-8 form)
+static QString text(const std::string &h)
+{
+    if (!h.empty() && h[0] == 'u') {
+        const QByteArray b = QByteArray::fromHex(QByteArray::fromStdString(h.substr(1)));
+        QString s;
+        for (int i = 0; i + 1 < b.size(); i += 2) s.append(QChar(ushort(((uchar)b[i] << 8) | (uchar)b[i + 1])));
+        return s;
+    }
+    const QByteArray b = unhex(h);
+    return b.isNull() ? QString() : QString::fromUtf8(b.constData(), b.size());
+}
 static void dump()
 {
     std::vector<std::string> items;
@@ -133,11 +147,10 @@ int main(int argc, char **argv)
         int mode = 0; std::string fh = "-"; long long age = 0;
         is >> mode >> fh >> age;
         if (age > 0) g_ms -= age;                         // the message object is older than the send
-        LogMessage m(ty, ctx, QString::fromUtf8(unhex(h)));
+        LogMessage m(ty, ctx, text(h));
         if (age > 0) g_ms += age;
         if (mode == 1) {
-            const auto f8 = unhex(fh);
-            m.setFormattedMessage(f8.isEmpty() ? QStringLiteral("") : QString::fromUtf8(f8));   // "" is empty but NOT null
+            m.setFormattedMessage(fh == "-" || fh.empty() ? QStringLiteral("") : text(fh));   // "" is empty but NOT null
         }
         f(m);
     };
@@ -193,7 +206,7 @@ int main(int argc, char **argv)
             int n2 = N;
             if (!(is >> n2)) n2 = N;
             if (!so) so = new RotatingFileSink(dir + "/" + QFile::decodeName(unhex(n)), L, n2, RotatingFileSink::Options(o));
-            LogMessage m(ty, ctx, QString::fromUtf8(unhex(h)));
+            LogMessage m(ty, ctx, text(h));
             so->send(m);
             so->flush();
         } else if (op == "sparse") {
